@@ -198,6 +198,108 @@ def check_scripts(problems):
         env.close()
 
 
+def _log_directives(backend, script):
+    """(stdout path, stderr path, truncating?) the scheduler would use for this script; None = not requested"""
+    import shlex
+    out = err = None
+    for line in script.splitlines():
+        if backend == "slurm" and line.startswith("#SBATCH "):
+            for w in shlex.split(line[len("#SBATCH "):]):
+                if w.startswith("--output="):
+                    out = w[len("--output="):]
+                if w.startswith("--error="):
+                    err = w[len("--error="):]
+        elif backend == "sge" and line.startswith("#$ "):
+            w = shlex.split(line[3:])
+            if w[:1] == ["-o"]:
+                out = w[1]
+            if w[:1] == ["-e"]:
+                err = w[1]
+        elif backend == "lsf" and line.startswith("#BSUB "):
+            w = shlex.split(line[len("#BSUB "):])
+            if w[:1] == ["-oo"]:
+                out = w[1]
+            if w[:1] == ["-eo"]:
+                err = w[1]
+    return out, err, backend != "sge"       # SGE appends to -o / -e files; sbatch and bsub -oo/-eo truncate
+
+
+def check_logs(problems):
+    """C10: the script sends stdout / stderr to <project>/.gwf/logs/<target>.stdout / .stderr as selected by the log
+    mode, `gwf logs` shows the latest run's output; clean_logs removes only logs of targets that are gone.
+    The scheduler is emulated: bash runs the script with the streams redirected as the directives say."""
+    from replay.cli_harness import Project
+    from gwf.backends.slurm import SlurmOps, TARGET_DEFAULTS as SD
+    from gwf.backends.sge import SGEOps, TARGET_DEFAULTS as GD
+    from gwf.backends.lsf import LSFOps, TARGET_DEFAULTS as LD
+    from gwf.core import Target
+    spec = "echo OUT-$RUN\necho ERR-$RUN >&2\n"
+    p = Project([{"name": "t1", "inputs": [], "outputs": [], "spec": spec}])
+    try:
+        os.makedirs(p.path(".gwf/logs"), exist_ok=True)
+        cases = [("slurm", "full", lambda: SlurmOps(p.dir, "full", True, target_defaults=SD), SD),
+                 ("slurm", "merged", lambda: SlurmOps(p.dir, "merged", True, target_defaults=SD), SD),
+                 ("slurm", "none", lambda: SlurmOps(p.dir, "none", True, target_defaults=SD), SD),
+                 ("sge", "full", lambda: SGEOps(p.dir, target_defaults=GD), GD),
+                 ("lsf", "full", lambda: LSFOps(p.dir, target_defaults=LD), LD)]
+        for backend, mode, mk, defaults in cases:
+            for f in os.listdir(p.path(".gwf/logs")):
+                os.unlink(os.path.join(p.path(".gwf/logs"), f))
+            want_out, want_err = p.path(".gwf/logs/t1.stdout"), p.path(".gwf/logs/t1.stderr")
+            for run in ("1", "2"):
+                t = Target(name="t1", inputs=[], outputs=[], options={k: v for k, v in defaults.items() if v is not None},
+                           working_dir=p.dir, spec=spec)
+                script = mk().compile_script(t)
+                out, err, trunc = _log_directives(backend, script)
+                exp = {"full": (want_out, want_err), "merged": (want_out, None), "none": ("/dev/null", None)}[mode]
+                if (out, err) != exp:
+                    problems.append(f"logs: {backend} (log mode {mode}): the script asks for stdout -> {out}, stderr -> {err}; "
+                                    f"the project's log files are {exp}")
+                    return
+                fo = open(out, "w" if trunc else "a")
+                fe = fo if err is None else open(err, "w" if trunc else "a")      # no stderr directive: joined with stdout
+                subprocess.run(["bash"], input=script, text=True, stdout=fo, stderr=fe, cwd="/", env=dict(os.environ, RUN=run))
+                fo.close()
+                if fe is not fo:
+                    fe.close()
+            code, shown = p.gwf("logs", "--no-pager", "t1")
+            code_e, shown_e = p.gwf("logs", "--no-pager", "-e", "t1")
+            if mode == "none":
+                continue
+            if code != 0 or "OUT-2" not in shown:
+                problems.append(f"logs: {backend} (log mode {mode}): `gwf logs t1` (exit {code}) shows {shown.strip()[-80:]!r}, "
+                                f"the latest run printed OUT-2")
+            if mode == "full" and (code_e != 0 or "ERR-2" not in shown_e or "OUT-2" in shown_e):
+                problems.append(f"logs: {backend} (log mode {mode}): `gwf logs -e t1` (exit {code_e}) shows "
+                                f"{shown_e.strip()[-80:]!r}, the latest run wrote ERR-2 to stderr")
+            if mode == "merged" and "ERR-2" not in shown:
+                problems.append(f"logs: {backend} (log mode merged): `gwf logs t1` shows {shown.strip()[-80:]!r} without the "
+                                f"latest run's stderr")
+            if problems:
+                return
+        # clean_logs: only logs of targets that are no longer part of the workflow
+        from gwf.plugins.run import clean_logs
+
+        class G:
+            targets = {"t1": None, "keep_me": None}
+
+        logs = p.path(".gwf/logs")
+        for f in os.listdir(logs):
+            os.unlink(os.path.join(logs, f))
+        names = ["t1.stdout", "t1.stderr", "keep_me.stdout", "gone.stdout", "gone.stderr", "t1x.stdout", "t.stdout"]
+        for f in names:
+            open(os.path.join(logs, f), "w").close()
+        open(p.path("gone.stdout"), "w").close()                # same name outside the log directory
+        clean_logs(p.dir, G())
+        left = sorted(os.listdir(logs))
+        want = ["keep_me.stdout", "t1.stderr", "t1.stdout"]
+        if left != want or not os.path.exists(p.path("gone.stdout")):
+            problems.append(f"logs: clean_logs with targets ['keep_me', 't1'] left {left} in .gwf/logs (expected {want}); "
+                            f"file outside the log directory still there: {os.path.exists(p.path('gone.stdout'))}")
+    finally:
+        p.close()
+
+
 def check_option_resolution(problems):
     """C10: what reaches the backend is: backend default < the target's own option, for the keys the backend knows;
     an option resolved to None is omitted, an unknown option dropped. Real gwf.scheduling.submit_backend with a
@@ -263,6 +365,7 @@ def run(which):
                     "bound": "fixed scenarios: ids 11/12/13, documented state codes, 4 directory names, each default option set to None"}
         p = " ".join(problems)
         wc = ("option-resolution" if problems[0].startswith("options:") else
+              "log-files" if problems[0].startswith("logs:") else
               "sge-id-with-newline" if "sge" in problems[0] and "4242" in problems[0] else
               "cd-unquoted" if "the spec ran in" in p else "ops-other")
         return {"failed_on_real_code": True, "input": {"scenario": problems[0].split(":")[0]}, "observed": problems[:8],
